@@ -55,6 +55,8 @@ type c16Rule struct {
 }
 
 type c16Op struct {
+	tick   bool // a T op: one maintenance iteration at wall clock tickUs
+	tickUs int64
 	ticks  int // > 0: an X op
 	key    string
 	ts     int64
@@ -64,6 +66,8 @@ type c16Op struct {
 }
 
 type c16Case struct {
+	g0       int64 // initial generation of the limiters map (I<gen> op), µs
+	hasI     bool
 	count    int
 	interval int64
 	expMs    int
@@ -127,6 +131,19 @@ func parseC16(t *hx.Toks) (*c16Case, bool) {
 				return nil, false
 			}
 			op.ticks = n
+		case strings.HasPrefix(k, "T"):
+			n, err := strconv.ParseInt(k[1:], 10, 64)
+			if err != nil {
+				return nil, false
+			}
+			op.tick, op.tickUs = true, n
+		case strings.HasPrefix(k, "I") && i == 0:
+			n, err := strconv.ParseInt(k[1:], 10, 64)
+			if err != nil {
+				return nil, false
+			}
+			c.g0, c.hasI = n, true
+			continue
 		default:
 			return nil, false
 		}
@@ -187,8 +204,16 @@ func c16Valid(c *c16Case) bool {
 			}
 		}
 	}
+	hasX, hasT := false, c.hasI
 	for _, op := range c.ops {
-		if op.ticks > 0 {
+		hasX = hasX || op.ticks > 0
+		hasT = hasT || op.tick
+	}
+	if hasX && hasT {
+		return false
+	}
+	for _, op := range c.ops {
+		if op.ticks > 0 || op.tick {
 			continue
 		}
 		if !c16Plain(op.key) || op.size < 0 {
@@ -338,6 +363,19 @@ func runC16(c *c16Case) (result string, retry bool) {
 	var now atomic.Int64
 	throttle.VerifSetNow(p, func() time.Time { return time.Unix(0, now.Load()) })
 
+	hasX := false
+	for i := range c.ops {
+		if c.ops[i].ticks > 0 {
+			hasX = true
+		}
+	}
+	if !hasX {
+		// logical life cycle of the limiters map: no wall-clock maintenance, the generation
+		// starts at the case's I value and advances only by the case's T ops
+		throttle.VerifStopMaintenance(p)
+		throttle.VerifSetCurGen(p, c.g0)
+	}
+
 	var sb strings.Builder
 	shares := throttle.VerifRuleShares(p)
 	fmt.Fprintf(&sb, "H %d", len(shares))
@@ -347,14 +385,8 @@ func runC16(c *c16Case) (result string, retry bool) {
 			fmt.Fprintf(&sb, " %d", v)
 		}
 	}
-	sb.WriteString(" R")
+	fmt.Fprintf(&sb, " E %d R", throttle.VerifLimitersExp(p))
 
-	hasX := false
-	for i := range c.ops {
-		if c.ops[i].ticks > 0 {
-			hasX = true
-		}
-	}
 	// a maintenance run in the middle of a segment of events would delete limiters at a point
 	// the case line does not name: detect it through the map generation and run the case again
 	gen := throttle.VerifCurGen(p)
@@ -389,6 +421,14 @@ func runC16(c *c16Case) (result string, retry bool) {
 			sb.WriteString(" x:" + strings.Join(gone, ","))
 			continue
 		}
+		if op.tick {
+			var gone []string
+			for _, k := range throttle.VerifMaintenanceOnce(p, op.tickUs) {
+				gone = append(gone, hx.Enc([]byte(k)))
+			}
+			sb.WriteString(" t:" + strings.Join(gone, ","))
+			continue
+		}
 		now.Store(op.now)
 		r := c16Do(p, op)
 		sb.WriteString(" " + r)
@@ -415,6 +455,13 @@ func runC16(c *c16Case) (result string, retry bool) {
 			}
 		}
 	}
+	if !hasX {
+		keys, gens := throttle.VerifGens(p)
+		fmt.Fprintf(&sb, " G %d %d", throttle.VerifCurGen(p), len(keys))
+		for _, g := range gens {
+			fmt.Fprintf(&sb, " %d", g)
+		}
+	}
 	return sb.String(), false
 }
 
@@ -436,10 +483,18 @@ func c16Line(w *bufio.Writer, c *c16Case) {
 		}
 		fmt.Fprintf(w, " %d", r.defShare)
 	}
-	fmt.Fprintf(w, " %d", len(c.ops))
+	if c.hasI {
+		fmt.Fprintf(w, " %d I%d", len(c.ops)+1, c.g0)
+	} else {
+		fmt.Fprintf(w, " %d", len(c.ops))
+	}
 	for _, op := range c.ops {
 		if op.ticks > 0 {
 			fmt.Fprintf(w, " X%d", op.ticks)
+			continue
+		}
+		if op.tick {
+			fmt.Fprintf(w, " T%d", op.tickUs)
 			continue
 		}
 		key := op.key
@@ -471,9 +526,9 @@ func c16FillShares(r *c16Rule) bool {
 }
 
 func genC16(w *bufio.Writer, rng *hx.Rng, tier string) {
-	nSmallLen, nRand, nEpoch, nX := 3, 2000, 300, 5
+	nSmallLen, nRand, nEpoch, nX, nTick := 3, 2000, 300, 5, 1500
 	if tier == "thorough" {
-		nSmallLen, nRand, nEpoch, nX = 4, 40000, 6000, 60
+		nSmallLen, nRand, nEpoch, nX, nTick = 4, 40000, 6000, 60, 30000
 	}
 	genC16Small(w, nSmallLen)
 	for i := 0; i < nRand; i++ {
@@ -485,6 +540,119 @@ func genC16(w *bufio.Writer, rng *hx.Rng, tier string) {
 	for i := 0; i < nX; i++ {
 		c16Line(w, genC16Expiry(rng))
 	}
+	for i := 0; i < nTick; i++ {
+		c16Line(w, genC16Ticks(rng))
+	}
+}
+
+// life cycle of the limiters map on a logical wall clock: I sets the map's generation, T ops are
+// single maintenance iterations, events happen between them with nowFn = the same clock (as in
+// production). Busy keys are accessed between (almost) all ticks with their bucket exhausted and
+// must never lose their limiter; idle keys expire and come back after a real silence.
+func genC16Ticks(rng *hx.Rng) *c16Case {
+	c := &c16Case{hasI: true}
+	c.count = rng.Range(1, 3)
+	c.interval = []int64{2e9, 3e9, 5e9, 7300e6, 60e9}[rng.Intn(5)]
+	window := int64(c.count) * c.interval
+	tickGap := int64(1e6) // µs: maintenanceInterval
+	irregular := rng.Chance(1, 4)
+	// configured expiration: far below the window (raised to it by Start), just above the window
+	// plus one tick (a stamp is at most one tick old), or large
+	switch rng.Intn(4) {
+	case 0:
+		c.expMs = rng.Range(1, 1000)
+	case 1, 2:
+		c.expMs = int(window/1e6) + 2000 + rng.Intn(3000)
+	default:
+		c.expMs = int(window/1e6)*2 + 4000
+	}
+	effUs := int64(c.expMs) * 1000
+	if effUs < window/1000 {
+		effUs = window / 1000
+	}
+	c.rules = []c16Rule{{limit: int64(rng.Range(1, 3)), kind: "c"}}
+	if rng.Chance(1, 3) {
+		c.rules = append([]c16Rule{{limit: int64(rng.Range(1, 2)), kind: "c", conds: [][2]string{{"ra", "x"}}}}, c.rules...)
+	}
+	wall := int64(1700000000e6) + int64(rng.Intn(5000000)) // µs
+	c.g0 = wall
+	// per key: busy (accessed every tick), idle phases
+	type keyPlan struct {
+		name      string
+		busy      bool
+		silentTil int64 // wall µs until which the key stays silent
+	}
+	plans := []keyPlan{{name: "a", busy: true}, {name: "b"}, {name: "c"}}
+	if rng.Chance(1, 3) {
+		plans[2].busy = true
+	}
+	horizon := wall + effUs*int64(rng.Range(2, 4)) + 3*tickGap
+	nev := 0
+	for wall < horizon && nev < 280 {
+		gap := tickGap
+		if irregular {
+			gap = tickGap/4 + rnd64(rng, 2*tickGap)
+		}
+		// events between this tick and the next one
+		nslots := rng.Range(0, 3)
+		for sIdx := 0; sIdx < nslots; sIdx++ {
+			off := rnd64(rng, gap) // µs after the last tick
+			_ = off
+		}
+		offs := make([]int64, 0, 6)
+		for _, pl := range plans {
+			n := 0
+			if pl.busy {
+				n = rng.Range(1, 2)
+				if rng.Chance(1, 25) {
+					n = 0
+				}
+			} else if wall >= pl.silentTil && rng.Chance(1, 2) {
+				n = rng.Range(1, 3)
+			}
+			for j := 0; j < n; j++ {
+				offs = append(offs, rnd64(rng, gap))
+			}
+		}
+		// sort offsets, assign keys round robin among the keys that asked for events
+		for i := 1; i < len(offs); i++ {
+			for j := i; j > 0 && offs[j] < offs[j-1]; j-- {
+				offs[j], offs[j-1] = offs[j-1], offs[j]
+			}
+		}
+		var askers []string
+		for pi := range plans {
+			pl := &plans[pi]
+			if pl.busy {
+				askers = append(askers, pl.name)
+			} else if wall >= pl.silentTil {
+				askers = append(askers, pl.name)
+				if rng.Chance(1, 6) {
+					// go silent for a while: sometimes longer than the expiration
+					pl.silentTil = wall + effUs/2 + rnd64(rng, effUs*2)
+				}
+			}
+		}
+		for i, off := range offs {
+			now := (wall+off)*1000 + rnd64(rng, 1000)
+			ts := now
+			switch rng.Intn(6) {
+			case 0:
+				ts = now - rnd64(rng, window)
+			case 1:
+				ts = now - rnd64(rng, c.interval)
+			}
+			op := c16Op{key: askers[(i+int(off))%len(askers)], ts: ts, now: now, size: 1}
+			if len(c.rules) > 1 && rng.Chance(1, 3) {
+				op.fields = append(op.fields, [2]string{"ra", "x"})
+			}
+			c.ops = append(c.ops, op)
+			nev++
+		}
+		wall += gap
+		c.ops = append(c.ops, c16Op{tick: true, tickUs: wall})
+	}
+	return c
 }
 
 // exhaustive small scope: one key, one rule, every sequence up to maxLen over the alphabet
